@@ -121,6 +121,13 @@ func (s *c14state) mutations() []*c14state {
 		})
 	}
 	mk("penv:add", func(c *c14state) { c.Penv["ADDED"] = "x" })
+	// a pipeline variable named like a signed field of the step: it is the entry env::NAME, never the field
+	for _, f := range []string{"command", "env", "plugins", "matrix", "repository_url"} {
+		f := f
+		if _, has := s.Penv[f]; !has {
+			mk("penv:add-named-like-field["+f+"]", func(c *c14state) { c.Penv[f] = "echo from env" })
+		}
+	}
 	if e := s.Step.Get("env"); e != nil && e.K == docgen.KMap {
 		for i, n := range e.Keys {
 			i, n := i, n
@@ -553,7 +560,7 @@ func init() {
 		ID:      "C14",
 		Workers: 1,
 		Rule: "explicit-state BFS (depth 2 with the EdDSA key, depth 1 with ES512 / PS512 / ES256-signer) over mutations of (step JSON, pipeline env, repository URL, algorithm) from the five initial states of C01: " +
-			"all step mutations of C01 (single-point changes, re-orderings, re-spellings, key/value and item/item boundary shifts) plus pipeline-env changes, name/value boundary shifts, moving a variable between step env and " +
+			"all step mutations of C01 (single-point changes, re-orderings, re-spellings, key/value and item/item boundary shifts) plus pipeline-env changes (incl. variables named like the signed fields command / env / plugins / matrix / repository_url), name/value boundary shifts, moving a variable between step env and " +
 			"pipeline env (also as a step env entry literally named env::NAME), command/repository-URL boundary shifts and algorithm changes. The payload bytes logged by Sign and by Verify are recorded per state; states are " +
 			"classed by the harness's canonical semantic form + algorithm name: within a class all payloads must be byte-identical and equal between Sign and Verify, across classes pairwise distinct (hash map keyed by payload). " +
 			"History independence: every ordered pair of initial states signed with one shared pipeline-env map. Position independence: every initial state signed through SignSteps at every position of five step forests (top level, after another step, in a group, in a nested group) logs the same payload as Sign alone. " +
